@@ -69,6 +69,7 @@ type c11TxObs struct {
 	iterAsNotFound bool
 	iterSwallowed  bool
 	nilStmt        bool // a Prepare on the session returned (nil, nil)
+	faultSwallowed string // a statement during which the driver injected a fault returned nil
 	// context handed to TransactCtx: done before the call / done when the body finished
 	ctxDoneBefore bool
 	ctxDone       bool
@@ -231,7 +232,14 @@ func c11RunTxWith(c c11TxCase, rec *c11Rec, call func(context.Context, func(cont
 			o.ctxDone = cctx.Err() != nil
 		}()
 		for i := 0; i < c.K; i++ {
+			hitBefore := rec.faultsHit()
 			e := c11RunStmt(ctx, s, c.Kinds[i], i)
+			if e == nil && rec.faultsHit() > hitBefore {
+				// the driver failed a call of this statement (Exec / Query / Prepare / row fetch)
+				// and the session told the body "nil": the body cannot keep its side of
+				// "commit iff the function returns nil"
+				o.faultSwallowed = fmt.Sprintf("statement #%d (%c)", i, c.Kinds[i])
+			}
 			if errors.Is(e, c11ErrNilStmtTx) {
 				o.nilStmt = true
 			}
@@ -345,6 +353,9 @@ func c11JudgeTx(m *vk.M, desc string, o c11TxObs) (class string, violated bool) 
 	}
 	if o.bodyCalls != 1 {
 		return v("C11:tx:body-calls", "transaction began but the supplied function ran %d times", o.bodyCalls)
+	}
+	if o.faultSwallowed != "" && !o.iterSwallowed {
+		return v("C11:tx:stmt:driver-error-swallowed", "%s: the driver returned an error for a call of this statement inside the transaction, the session reported nil to the body", o.faultSwallowed)
 	}
 	if o.nilStmt {
 		return v("C11:tx:stmt:prepare-returned-nil-statement", "Prepare on the transaction session returned a nil statement together with a nil error: the body cannot run its statement and cannot tell why")
